@@ -400,6 +400,37 @@ def run(p, report, tier):
             report.add("R9.8", f.qual, f"`{recv}` re-targeted: classes and missing_label overridden together", f"{f.file}:{d['classes'].lineno}",
                        ok, detail="both overridden" if ok else
                        f"`{norm_stmt(d['classes'], 60)}` overrides the classes but the model keeps the user's missing_label")
+    report.rule("R9.10", "an array created as np.full(shape, <missing label>) without a dtype has the sentinel's own type: it "
+                "serves as a label filler only (concatenated with / handed on as labels) and never receives element stores - "
+                "predictions written into it are truncated to the sentinel's width ('cobra' -> 'cob' for 'nan', 1.5 -> 1 for "
+                "-1), so the outcome depends on how missing labels are spelled", floor=1)
+    n910 = 0
+    for f in p.all_functions():
+        if "/tests/" in f.file:
+            continue
+        for a in ast.walk(f.node):
+            if not (isinstance(a, ast.Assign) and len(a.targets) == 1 and isinstance(a.targets[0], ast.Name)
+                    and isinstance(a.value, ast.Call) and (c01.callname(a.value) or "") == "full"):
+                continue
+            c = a.value
+            fill = c.args[1] if len(c.args) >= 2 else next((k.value for k in c.keywords if k.arg == "fill_value"), None)
+            if fill is None or "missing_label" not in ast.unparse(fill) or any(k.arg == "dtype" for k in c.keywords):
+                continue
+            nm = a.targets[0].id
+            n910 += 1
+            stores = [st for st in ast.walk(f.node) if isinstance(st, (ast.Assign, ast.AugAssign))
+                      and any(isinstance(t, ast.Subscript) and base_name(t) == nm
+                              for t in (st.targets if isinstance(st, ast.Assign) else [st.target]))]
+            report.add("R9.10", f.qual, f"sentinel-typed `{norm_stmt(a, 60)}` is a filler only", f"{f.file}:{a.lineno}",
+                       not stores, detail="never written element-wise" if not stores else
+                       f"`{norm_stmt(stores[0], 60)}` writes other values into an array whose dtype was fixed by the sentinel "
+                       f"alone: with a short string or an integer sentinel the stored labels / predictions are truncated")
+    report.analysed["sentinel_typed_arrays"] = n910
+    report.rule("R9.9", "labels are only ever turned into codes by looking them up among the classes: every return of "
+                "ExtLabelEncoder.transform is the array filled from the exact lookup (no shortcut for label arrays that "
+                "'already look encoded' - whether they do depends on the label values; shared with C16 R16.9)", floor=2)
+    from . import c16 as _c16
+    _c16.check_exact_lookup(p, c01.Report_proxy(report, {"R16.9": "R9.9"}), "R16.9")
     report.assumptions += ["equality of outputs under order-preserving renaming is not decided",
                            "calls on model predictions and pure validators are outside R9.1"]
 
